@@ -215,8 +215,15 @@ def jsonable(x):
     return repr(x)
 
 
-def load_known():
-    p = os.path.join(VERIF, 'known_findings.json')
-    if not os.path.exists(p):
-        return {'findings': [], 'fixed': []}
-    return json.load(open(p))
+def load_known(prop=None):
+    """known findings live in /verif/known_findings/<Cxx>.json (one committed file per property; never written at run time)"""
+    out = {'findings': [], 'fixed': []}
+    d = os.path.join(VERIF, 'known_findings')
+    if not os.path.isdir(d):
+        return out
+    for f in sorted(os.listdir(d)):
+        if f.endswith('.json') and (prop is None or f == prop + '.json'):
+            j = json.load(open(os.path.join(d, f)))
+            out['findings'] += j.get('findings', [])
+            out['fixed'] += j.get('fixed', [])
+    return out
